@@ -41,6 +41,12 @@ type Case struct {
 	Step   bool  `json:"step_profile,omitempty"`   // see genStep (step_test.go)
 	Dense  bool  `json:"dense,omitempty"`
 	ShotUs []int `json:"response_us,omitempty"`
+	// Startup: the pool's `startup` schedule (nil: once(Instances), all instances at the start of the run); Instances
+	// is then the number of instances the startup schedule holds (see genStartup, startup_test.go)
+	Startup *sg.Node `json:"startup,omitempty"`
+	// PreStartMs > 0: every rps schedule object is started (Schedule.Start) that long in the past before the pool
+	// gets it, so that its first requests are already overdue when the first instance asks for one
+	PreStartMs int `json:"rps_schedule_started_ms_ago,omitempty"`
 }
 
 func genDense(t *rapid.T) Case {
@@ -301,17 +307,27 @@ func check(c Case, o *vf.Obs) error {
 	m := pand.Metrics()
 	var mu sync.Mutex
 	var scheds []*fake.Sched
+	explicitStart := map[*fake.Sched]time.Time{}
 	newSched := func() (core.Schedule, error) {
 		s := fake.WrapSched(sg.Build(c.Profile))
 		mu.Lock()
 		scheds = append(scheds, s)
+		if c.PreStartMs > 0 {
+			at := time.Now().Add(-time.Duration(c.PreStartMs) * time.Millisecond)
+			s.Start(at)
+			explicitStart[s] = at
+		}
 		mu.Unlock()
 		return s, nil
+	}
+	var startup core.Schedule = schedule.NewOnce(int64(c.Instances))
+	if c.Startup != nil {
+		startup = sg.Build(*c.Startup)
 	}
 	conf := engine.Config{Pools: []engine.InstancePoolConfig{{
 		ID: "p", Provider: prov, Aggregator: aggr, NewGun: guns.Factory,
 		RPSPerInstance: c.PerInstance, NewRPSSchedule: newSched,
-		StartupSchedule: schedule.NewOnce(int64(c.Instances)), DiscardOverflow: c.Discard,
+		StartupSchedule: startup, DiscardOverflow: c.Discard,
 	}}}
 	eng := engine.New(pand.NopLog(), m, conf)
 	ctx, cancel := context.WithCancel(context.Background())
@@ -373,10 +389,16 @@ func check(c Case, o *vf.Obs) error {
 		log := s.Log()
 		// Nobody starts the schedule explicitly: it starts at the clock reading taken inside the first Next, which is
 		// not before the earliest instant a Next call was entered.
+		// (a schedule started explicitly starts at the time it was given)
+		mu.Lock()
+		explicit, isExplicit := explicitStart[s]
+		mu.Unlock()
 		var started time.Time
 		var oks []int
 		for i, r := range log {
-			if started.IsZero() || r.Before.Before(started) {
+			if isExplicit {
+				started = explicit
+			} else if started.IsZero() || r.Before.Before(started) {
 				started = r.Before
 			}
 			if r.OK {
@@ -419,6 +441,8 @@ func check(c Case, o *vf.Obs) error {
 	}
 	late12, late23, late3, lateOver1, onTime, waitedAfterDiscard := 0, 0, 0, 0, 0, 0
 	vsProfile, longestWait := 0, time.Duration(0)
+	// the first request an instance asks for: how late it is, and how long after the start of the run it was asked for
+	firstLate2, firstLateLt2, lateStarters, lateStarterFirstLate2, lateStarterOnTime := 0, 0, 0, 0, 0
 	for g, evs := range byG {
 		sort.SliceStable(evs, func(i, j int) bool { return evs[i].at.Before(evs[j].at) })
 		for i := 0; i < len(evs); i++ {
@@ -444,6 +468,23 @@ func check(c Case, o *vf.Obs) error {
 				}
 			}
 			lateA, lateB := A.Sub(Tt), B.Sub(Tt)
+			if i == 1 {
+				lateStart := nx.Before.Sub(t0) >= time.Second
+				switch {
+				case lateA >= window:
+					firstLate2++
+					if lateStart {
+						lateStarterFirstLate2++
+					}
+				case lateA >= 300*time.Millisecond:
+					firstLateLt2++
+				case lateStart:
+					lateStarterOnTime++
+				}
+				if lateStart {
+					lateStarters++
+				}
+			}
 			if w := Tt.Sub(A); out.kind == "shot" && w > longestWait {
 				longestWait = w // handed out this long ahead of its time: the instance has to wait that long in one go
 			}
@@ -518,6 +559,20 @@ func check(c Case, o *vf.Obs) error {
 	o.ClassIf(pr.hasUnl && nexts > tokens, "unlimited_section_fired")
 	o.ClassIf(vsProfile > 0, "shots_compared_with_profile_time")
 	o.ClassIf(c.Long, "long_wait_profile")
+	o.ClassIf(c.Startup != nil, "gradual_startup")
+	o.ClassIf(c.PreStartMs > 0, "rps_schedule_started_in_the_past")
+	o.ClassIf(lateStarters > 0, "instance_started_ge_1s_into_the_run")
+	o.ClassIf(firstLate2 > 0, "instance_first_request_ge_2s_overdue")
+	o.ClassIf(lateStarterFirstLate2 > 0, "late_started_instance_first_request_ge_2s_overdue")
+	o.ClassIf(c.PreStartMs > 0 && firstLate2 > 0, "prestarted_schedule_first_request_ge_2s_overdue")
+	o.ClassIf(c.Discard && lateStarterFirstLate2 > 0, "discard_on_late_started_instance_first_request_ge_2s_overdue")
+	o.ClassIf(c.Discard && c.PreStartMs > 0 && firstLate2 > 0, "discard_on_prestarted_schedule_first_request_ge_2s_overdue")
+	o.ClassIf(c.Discard && firstLateLt2 > 0, "discard_on_instance_first_request_overdue_lt_2s")
+	o.ClassIf(firstLateLt2 > 0, "instance_first_request_overdue_lt_2s")
+	o.ClassIf(lateStarterOnTime > 0, "late_started_instance_first_request_on_time")
+	if c.Startup != nil {
+		o.Class("startup_" + c.Startup.Kind)
+	}
 	o.ClassIf(longestWait >= 3*time.Second, "single_wait_ge_3s")
 	o.ClassIf(longestWait >= 5*time.Second, "single_wait_ge_5s")
 	o.ClassIf(longestWait >= 8*time.Second, "single_wait_ge_8s")
@@ -538,6 +593,11 @@ func check(c Case, o *vf.Obs) error {
 	o.ClassIf(sf.sections > 0 && sf.emptyLevels == 0, "step_every_level_has_requests")
 	o.ClassIf(sf.reqsAfterEmpty && vsProfile > 0, "requests_behind_step_level_without_request_compared_with_profile_time")
 	switch {
+	case c.Startup != nil || c.PreStartMs > 0:
+		// some instance asked for its first request a second or more into the run, or found it overdue
+		if lateStarters > 0 || firstLate2+firstLateLt2 > 0 {
+			o.NonTrivial()
+		}
 	case c.Step:
 		if sf.reqsAfterEmpty && vsProfile > 0 {
 			o.NonTrivial()
